@@ -235,6 +235,13 @@ func (tfs *tagFamilyFilters) Eq(tagName string, tagValue string) bool {
 func (tfs *tagFamilyFilters) Range(tagName string, rangeOpts index.RangeOpts) (bool, error) {
 	for _, tff := range tfs.tagFamilyFilters {
 		if tf, ok := (*tff)[tagName]; ok {
+			// min/max are recorded only when a block is built from written elements; a block
+			// rewritten by the merger (or one holding only nulls) carries none. An absent bound
+			// says nothing about the values, so it must not be compared: an empty max sorts below
+			// every lower bound and the block would always be skipped.
+			if len(tf.min) == 0 || len(tf.max) == 0 {
+				continue
+			}
 			if rangeOpts.Lower != nil {
 				lower, ok := rangeOpts.Lower.(*index.FloatTermValue)
 				if !ok {
